@@ -252,7 +252,8 @@ class Unit:
                     tags = []
                     for e in self.entries:
                         h = e.head
-                        if h[0] == "hint" and h[1] in ("*", alias) and fn.key == h[2]:
+                        if h[0] == "hint" and h[1] in ("*", alias) and fn.key == h[2] and not getattr(e, "stmt_done", False):
+                            e.stmt_done = True
                             n = int(h[6][1:]) if len(h) > 6 else 1
                             pos = rsx.stmt_anchor(src, fn, h[3], h[4], h[5], n)
                             if not (lo <= pos <= hi):
